@@ -18,6 +18,10 @@ CLAIMED = {
              note="psi-kernel and Poisson solve opaque (arbitrary |psi'|^2, scripted refusals); exact reals; window <= 5, retries <= 3; lenient about the documented off-by-one of the retry count", ref="5/C12"),
  "C05": dict(text="The real Runner.run/_run_stage, RunningState, DataHandler (in-memory HDF5 tree), DynamicsData.from_hdf5 and Solution.times are executed with symbolic step sizes, solve time and thermalisation time for every save interval 1..N+2, 0/2/3 probes and thermalisation on/off; every path (stopping pattern) is checked against an executable specification: frame steps 0,k,2k,..,final; frame (s,t) holds exactly s updates and t = sum of the first s steps; one per-step record per step in order; stop at the first step with time >= solve time; thermalisation unrecorded; Solution.times = frame times.",
              note="N <= 4 steps per stage (quick) / 7 (thorough); update function opaque (arbitrary step sizes in [1/2,1]); HDF5, tqdm, logging stubbed; real-valued clocks", ref="5/C05"),
+ "C13": dict(text="Kernel: the Python source of the numba Coulomb kernel on symbolic currents/areas/coordinates equals the direct double sum and overwrites every cell of an 'uninitialised' buffer. One Polyak iteration of the real get_induced_vector_potential + get_quantity_on_site with symbolic currents, previous iterate, velocity, alpha, beta: new iterate, velocity and the returned error follow the documented formulas (incl. the 1e-20 floor). Loop contract of the real update: returns only after an iteration with error < tolerance, returns that iterate, raises when max_iterations_per_step is exceeded, screening off returns the zero potential untouched.",
+             note="kernel via numba .py_func (compiled code outside); <= 4 sites x 3 edges with symbolic coordinates; Polyak iteration on T2/F5; loop with <= 3 iterations and opaque physics; convergence itself not claimed", ref="5/C13"),
+ "C17": dict(text="From psi=1, mu=0, A=0, epsilon=1 one step of the real __init__/update/adaptive_euler_step/solve_for_psi_squared/solve_for_observables (and, with screening, the real Polyak iteration + kernel source) on meshes with symbolic weights returns exactly psi'=1, mu'=0, J_s=J_n=0, A_induced=0, records max|d|psi|^2| = 0 and moves the adaptive step to dt_max; post-state = pre-state, so stationarity at every step follows by induction.",
+             note="devices bar0, bar2 (unpinned unbiased terminals), holed, tee3; gamma symbolic without screening / enumerated with screening; LU contract with zero-rhs clause; exact reals (ulp-level noise amplification on fine meshes is outside the claim)", ref="5/C17"),
 }
 NA = {
 }
